@@ -33,6 +33,9 @@ import json, math, os, shutil, struct
 from harness.gen import c08_inst as G
 
 REL = 1e-9
+IMPL_SMALL = 2e4        # below this every instance goes through the implementation-structured model, above every 12th
+IMPL_BUDGET = 6e5       # size bound (operations) for the implementation-structured model in Float
+IMPL_BUDGET_RAT = 6e4   # ... over exact rationals
 EXACT_REL = 1e-12      # implementation floats vs the exact rational posterior (c08.fbrat): relative, + 1e-300 absolute
 RULE = ("well-formed instances (sorted reads with >= 2 variants each, 0/1 alleles, positive priors) over single individuals, "
         "trios (both individual orders), quartets, unrelated pairs and a three-generation pedigree; non-trivial = at least "
@@ -332,6 +335,249 @@ def cli_case(ctx, rng, idx, big):
     shutil.rmtree(d, ignore_errors=True)
 
 
+
+# ------------------------------------------------------------------------------------------------
+# glue level: `run_genotype` in-process with recorders; inaccessible variants before / between / after accessible ones
+# ------------------------------------------------------------------------------------------------
+
+def gen_glue_spec(rng, idx):
+    """a data set whose VCF has variants that are NOT columns of the HMM (isolated: only reads covering nothing else;
+    uncovered: no read at all; single-read) before, between and after clusters of jointly covered variants"""
+    trio = (idx % 3 == 2)
+    samples = ["mother", "father", "child"] if trio else ["S1"]
+    segs = [rng.choice(["iso", "uncov", "iso"]), "cluster"]
+    for _ in range(rng.randrange(1, 4)):
+        segs.append(rng.choice(["iso", "uncov", "cluster", "cluster"]))
+    if rng.random() < 0.5:
+        segs.append(rng.choice(["iso", "uncov"]))
+    if idx % 5 == 4:
+        segs = ["cluster"] + segs[1:]          # also the all-accessible-first layout
+    variants, reads, cur, n = [], [], 200, 0
+    geno = {}
+
+    def allele(sample, pos, q):
+        g = geno.setdefault((sample, pos), rng.choice([0, 1, 1, 2]))
+        a = [0, rng.randrange(2), 1][g]
+        return a if rng.random() > 0.1 else 1 - a
+
+    for kind in segs:
+        if kind in ("iso", "uncov"):
+            variants.append(cur)
+            if kind == "iso":
+                for sm in samples:
+                    for _ in range(rng.randrange(1, 5)):
+                        q = rng.randrange(8, 41)
+                        reads.append({"name": f"r{n}", "sample": sm, "start": cur - rng.randrange(5, 40), "len": 60,
+                                      "alts": [cur] if allele(sm, cur, q) else [], "qual": q}); n += 1
+            cur += 400
+        else:
+            m = rng.randrange(2, 5)
+            vs = [cur + 25 * i for i in range(m)]
+            variants += vs
+            for sm in samples:
+                for _ in range(rng.randrange(1, 3 if trio else 5)):
+                    i0 = rng.randrange(0, m - 1); i1 = rng.randrange(i0 + 1, m)
+                    q = rng.randrange(8, 41)
+                    start = vs[i0] - rng.randrange(3, 12); end = vs[i1] + rng.randrange(3, 12)
+                    reads.append({"name": f"r{n}", "sample": sm, "start": start, "len": end - start,
+                                  "alts": [v for v in vs[i0:i1 + 1] if allele(sm, v, q)], "qual": q}); n += 1
+                for _ in range(rng.randrange(0, 3)):       # reads covering a single variant of the cluster: priors only
+                    v = rng.choice(vs); q = rng.randrange(8, 41)
+                    reads.append({"name": f"r{n}", "sample": sm, "start": v - 8, "len": 16,
+                                  "alts": [v] if allele(sm, v, q) else [], "qual": q}); n += 1
+            cur += 25 * m + 400
+    return {"kind": "glue", "samples": samples, "trio": trio, "length": cur + 200, "variants": variants, "reads": reads,
+            "nopriors": rng.random() < 0.25, "constant": rng.choice([0.0, 0.0, 0.01, 1.0]),
+            "recombrate": rng.choice([1.26, 50.0, 0.001]), "thr": rng.choice([0, 0, 3, 10])}
+
+
+def glue_case(ctx, spec, tag="glue"):
+    """runs the real `run_genotype` in-process on the data set of `spec`, recording what reaches `Pedigree.add_individual`
+    and `GenotypeDPTable`; demands (cli-prior-column) that column i carries the prior of the variant at accessible position
+    i - priors recomputed from `compute_genotypes` + the documented regularisation, and read back from --prioroutput - and
+    (cli-posterior) that the likelihoods (table and output VCF) are the HMM posterior for the selected reads and THOSE priors"""
+    from harness.gen import sim
+    import whatshap.cli.genotype as Gm
+    ctx.evaluated()
+    d = os.path.join(ctx.workdir(), tag)
+    shutil.rmtree(d, ignore_errors=True); os.makedirs(d)
+    L, samples = spec["length"], spec["samples"]
+    contigs = {"chr1": "A" * L}
+    breads = []
+    for r in spec["reads"]:
+        seq = ["A"] * r["len"]
+        for v in r["alts"]:
+            seq[v - r["start"]] = "C"
+        breads.append({"name": r["name"], "chrom": "chr1", "start": r["start"], "cigar": [(0, r["len"])], "seq": "".join(seq),
+                       "qual": r["qual"], "rg": "rg_" + r["sample"]})
+    bam = os.path.join(d, "in.bam")
+    sim.write_bam(bam, contigs, breads, read_groups=[("rg_" + sm, sm) for sm in samples])
+    vcf = os.path.join(d, "in.vcf")
+    with open(vcf, "w") as f:
+        f.write("##fileformat=VCFv4.2\n##contig=<ID=chr1,length=%d>\n" % L)
+        f.write('##FORMAT=<ID=GT,Number=1,Type=String,Description="Genotype">\n')
+        f.write("#CHROM\tPOS\tID\tREF\tALT\tQUAL\tFILTER\tINFO\tFORMAT\t" + "\t".join(samples) + "\n")
+        for v in spec["variants"]:
+            f.write("chr1\t%d\t.\tA\tC\t.\tPASS\t.\tGT" % (v + 1) + "\t0/1" * len(samples) + "\n")
+    out, prior = os.path.join(d, "out.vcf"), os.path.join(d, "prior.vcf")
+    pedf = None
+    if spec["trio"]:
+        pedf = os.path.join(d, "t.ped"); open(pedf, "w").write("fam child father mother 0 1\n")
+
+    rec = {"cg": [], "fam": []}
+    orig = (Gm.compute_genotypes, Gm.Pedigree, Gm.GenotypeDPTable)
+
+    def cg(readset, positions=None):
+        g, l = orig[0](readset, positions)
+        rec["cg"].append((list(positions), [[float(x[0]), float(x[1]), float(x[2])] for x in l]))
+        return g, l
+
+    class PedRec:
+        def __init__(self, ids):
+            self._p = orig[1](ids); self.ind = []; self.rel = []
+            rec["fam"].append(self)
+
+        def add_individual(self, sample, genotypes, gls):
+            self.ind.append((sample, len(genotypes), [[float(x) for x in g] for g in gls]))
+            return self._p.add_individual(sample, genotypes, gls)
+
+        def add_relationship(self, father_id, mother_id, child_id):
+            self.rel.append((father_id, mother_id, child_id))
+            return self._p.add_relationship(father_id=father_id, mother_id=mother_id, child_id=child_id)
+
+        def __getattr__(self, k):
+            return getattr(self._p, k)
+
+    class TableRec:
+        def __init__(self, ids, reads, recomb, pedigree, positions):
+            self.fam = pedigree
+            pedigree.ids = ids
+            pedigree.reads = [(rd.sample_id, [(v.position, v.allele, v.quality) for v in rd]) for rd in reads]
+            pedigree.recomb = list(recomb); pedigree.positions = list(positions); pedigree.lik = {}
+            self._t = orig[2](ids, reads, recomb, pedigree._p, positions)
+
+        def get_genotype_likelihoods(self, s, pos):
+            r = self._t.get_genotype_likelihoods(s, pos)
+            self.fam.lik[(s, pos)] = [float(x) for x in r]
+            return r
+
+    Gm.compute_genotypes, Gm.Pedigree, Gm.GenotypeDPTable = cg, PedRec, TableRec
+    import logging
+    lvl = logging.getLogger("whatshap").level
+    try:
+        logging.getLogger("whatshap").setLevel(logging.ERROR)
+        Gm.run_genotype([bam], vcf, output=out, prioroutput=prior, nopriors=spec["nopriors"], ped=pedf,
+                        recombrate=spec["recombrate"], gt_qual_threshold=spec["thr"], constant=spec["constant"],
+                        write_command_line_header=False)
+    except Exception as e:     # noqa
+        ctx.fail(f"run_genotype raised {type(e).__name__}: {e}", spec, key="cli-failed")
+        return
+    finally:
+        Gm.compute_genotypes, Gm.Pedigree, Gm.GenotypeDPTable = orig
+        logging.getLogger("whatshap").setLevel(lvl)
+
+    V = spec["variants"]
+    # expected prior of (sample, record): the documented prior model
+    exp = {}
+    if spec["nopriors"]:
+        for sm in samples:
+            exp[sm] = [[1 / 3, 1 / 3, 1 / 3] for _ in V]
+    else:
+        if len(rec["cg"]) != len(samples):
+            ctx.disagree("c08.glue/compute-genotypes-calls", spec, len(samples), len(rec["cg"])); return
+        for sm, (pos, l) in zip(samples, rec["cg"]):
+            c = spec["constant"]
+            exp[sm] = [[(g[0] + c) / (g[0] + g[1] + g[2] + 3 * c), (g[1] + c) / (g[0] + g[1] + g[2] + 3 * c),
+                        (g[2] + c) / (g[0] + g[1] + g[2] + 3 * c)] for g in l]
+    # ... as reported by --prioroutput (6 digits)
+    prec = parse_out_vcf(prior)
+    for ri, r in enumerate(prec):
+        for si, c in enumerate(r["calls"]):
+            gl = c.get("GL")
+            if gl and all(x is not None for x in gl):
+                for g in range(3):
+                    e = exp[samples[si]][ri][g]
+                    le = max(math.log10(e), -1000) if e > 0 else -1000
+                    if abs(gl[g] - le) > 6e-6 * abs(le) + 2e-6:
+                        ctx.fail(f"--prioroutput record {ri} sample {samples[si]}: GL {gl} is not log10 of the prior {exp[samples[si]][ri]}",
+                                 spec, key="cli-prior-column")
+    orec = parse_out_vcf(out)
+    n_inacc_before = 0
+    reqs, back = [], []
+    for fam in rec["fam"]:
+        if not hasattr(fam, "positions"):
+            continue
+        acc = fam.positions
+        idx_of = {v: i for i, v in enumerate(V)}
+        if any(a not in idx_of for a in acc):
+            ctx.fail(f"accessible position not a VCF record: {acc}", spec, key="cli-prior-column"); continue
+        rows = [idx_of[a] for a in acc]
+        if rows and rows != list(range(len(rows))):
+            n_inacc_before += 1
+        names = [x[0] for x in fam.ind]
+        # (1) alignment of the priors handed to the DP
+        for (sm, ng, gls) in fam.ind:
+            want = [exp[sm][r] for r in rows]
+            ok = len(gls) == len(acc) and ng == len(acc) and all(
+                abs(a - b) <= 1e-12 * max(abs(a), abs(b)) for x, y in zip(gls, want) for a, b in zip(x, y))
+            if not ok:
+                bad = next((i for i, (x, y) in enumerate(zip(gls, want)) if any(abs(a - b) > 1e-12 * max(abs(a), abs(b)) for a, b in zip(x, y))), None)
+                ctx.fail(f"sample {sm}: {len(gls)} priors handed to the DP for {len(acc)} columns; column {bad} (variant at {acc[bad] if bad is not None and bad < len(acc) else '?'}, VCF record "
+                         f"{rows[bad] if bad is not None and bad < len(rows) else '?'}) got {gls[bad] if bad is not None else None}, the prior of that variant is {want[bad] if bad is not None else None}",
+                         dict(spec, accessible=acc), key="cli-prior-column")
+            # the Lean glue model on the same lists (opaque priors = bit patterns)
+            reqs.append({"op": "c08.glue", "positions": V, "acc": acc, "priors": [[f2b(x) for x in p] for p in exp[sm]]})
+            back.append(("glue", sm, [[f2b(x) for x in p] for p in gls], None, None))
+        # (2) the posterior for the selected reads and the priors of the variants the columns stand for
+        col_of = {a: i for i, a in enumerate(acc)}
+        sid = {fam.ids[nm]: i for i, nm in enumerate(names)}
+        case = {"ped": "cli", "n_ind": len(names), "n_cols": len(acc),
+                "triples": [[names.index(f), names.index(m), names.index(c)] for f, m, c in fam.rel],
+                "reads": [{"ind": sid[s], "entries": [[col_of[p], a, q] for p, a, q in ents]} for s, ents in fam.reads],
+                "priors": [[exp[nm][r] for r in rows] for nm in names], "recomb": fam.recomb}
+        if not acc or not G.well_formed(case) or any(min(p) <= 0 for ind in case["priors"] for p in ind):
+            ctx.dist("glue_skipped_posterior", True); continue
+        impl = [[fam.lik.get((nm, c)) for c in range(len(acc))] for nm in names]
+        if any(x is None for ind in impl for x in ind):
+            ctx.disagree("c08.glue/likelihoods-not-read", spec, "all", "missing"); continue
+        if G.oracle_cost(case) <= 2e5:
+            post = G.oracle(case)
+            dev = max_dev(impl, post)
+            ctx.extra["glue_oracle_checked"] = ctx.extra.get("glue_oracle_checked", 0) + 1
+            if dev > REL:
+                ctx.fail(f"run_genotype: likelihoods differ by rel. {dev:.3g} from the HMM posterior (numpy oracle) for the selected reads and the priors whatshap "
+                         f"computed for the variants at the accessible positions", dict(spec, case=case, impl=impl, oracle=post), key="cli-posterior")
+        if G.impl_cost(case) <= IMPL_BUDGET:
+            reqs.append(model_req(case, "c08.fb")); back.append(("fb", None, impl, case, None))
+        # output VCF: GL of the accessible records = log10 of that table
+        for i, nm in enumerate(names):
+            si = samples.index(nm)
+            for c, r in enumerate(rows):
+                gl = orec[r]["calls"][si].get("GL")
+                for g in range(3):
+                    p = impl[i][c][g]
+                    lp = max(math.log10(p), -1000) if p > 0 else -1000
+                    if gl is None or gl[g] is None or abs(gl[g] - lp) > 6e-6 * abs(lp) + 2e-6:
+                        ctx.fail(f"output VCF record {r} sample {nm}: GL {gl} is not log10 of the table's likelihoods {impl[i][c]}", spec, key="cli-posterior")
+    ctx.dist("glue_inaccessible_before_accessible", bool(n_inacc_before))
+    if n_inacc_before:
+        ctx.nontrivial("glue" + json.dumps(spec, sort_keys=True))
+    for (kind, sm, impl, case, _), ans in zip(back, ctx.model.ask_many(reqs) if reqs else []):
+        if kind == "glue":
+            if not isinstance(ans, dict) or ans.get("cols") != impl:
+                ctx.disagree("c08.glue", spec, impl, ans)
+        else:
+            lik = decode(ans, "lik")
+            if lik is None:
+                ctx.disagree("c08.fb", case, "likelihoods", ans); continue
+            ctx.extra["glue_model_checked"] = ctx.extra.get("glue_model_checked", 0) + 1
+            dev = max_dev(impl, lik)
+            if dev > REL:
+                ctx.fail(f"run_genotype: likelihoods differ by rel. {dev:.3g} from the HMM posterior (Lean model, = brute force by theorem) for the selected reads "
+                         f"and the priors of the variants at the accessible positions", dict(spec, case=case, impl=impl, model=lik), key="cli-posterior")
+    ctx.validated()
+    shutil.rmtree(d, ignore_errors=True)
+
 # ------------------------------------------------------------------------------------------------
 # run
 # ------------------------------------------------------------------------------------------------
@@ -354,9 +600,36 @@ class Batch:
                 reqs.append(model_req(case, "c08.fb", scal)); back.append((n, "fb-scaled"))
             if want_brute:
                 reqs.append(model_req(case, "c08.brute")); back.append((n, "brute"))
+            ic = G.impl_cost(case)
+            self.n_seen = getattr(self, "n_seen", 0) + 1
+            if ic <= IMPL_SMALL or (ic <= IMPL_BUDGET and self.n_seen % 12 == 0):
+                # the implementation-structured model (Gray walk, incremental cost computers, scatter-adds, the code's own
+                # scaling sums, check-pointing): with the code's spacing k = floor(sqrt(n)) and with another spacing
+                reqs.append(model_req(case, "c08.impl")); back.append((n, "impl"))
+                k2 = 1 + (n * 7 + case["n_cols"]) % max(1, case["n_cols"])
+                reqs.append(dict(model_req(case, "c08.impl"), k=k2)); back.append((n, "impl-k%d" % k2))
         answers = ctx.model.ask_many(reqs) if reqs else []
         for (n, kind), ans in zip(back, answers):
             case, impl, _, scal = self.items[n]
+            if kind.startswith("impl"):
+                lik = decode(ans, "lik")
+                if lik is None:
+                    ctx.disagree("c08.impl", case, "likelihoods", ans); continue
+                ctx.extra["impl_model_checked"] = ctx.extra.get("impl_model_checked", 0) + 1
+                if any(ans.get("recomputed", [])):
+                    ctx.extra["impl_model_with_recomputation"] = ctx.extra.get("impl_model_with_recomputation", 0) + 1
+                dev = max_dev(impl, lik)
+                ctx.extra["max_rel_dev_impl_model"] = max(ctx.extra.get("max_rel_dev_impl_model", 0.0), dev)
+                if dev > REL:
+                    ctx.disagree("c08." + kind, case, impl, lik)
+                if kind == "impl":
+                    # where the forward pass finds no stored column and re-computes a whole block (down from the next stored
+                    # one): at the first column after every multiple of k = floor(sqrt(n))
+                    nc = case["n_cols"]; kk = math.isqrt(nc)
+                    want = [bool(kk > 1 and c + 1 < nc and c % kk == 1) for c in range(nc)]
+                    if ans.get("recomputed") != want:
+                        ctx.disagree("c08.impl/recomputed-columns", case, want, ans.get("recomputed"))
+                continue
             if kind == "brute":
                 post = decode(ans, "post")
                 if post is None:
@@ -475,7 +748,27 @@ class ExactBatch:
                    "recomb": case["recomb"], "priors": [[[frac_str(x) for x in p] for p in ind] for ind in case["priors"]], "brute": bool(brute),
                    "em0": frac_str(0.9999)}     # genotypecolumncostcomputer.cpp: `result[0] = 0.9999;` (a double literal)
             reqs.append(req)
-        answers = ctx.model.ask_many(reqs) if reqs else []
+        # the implementation-structured model over exact rationals, with the code's spacing and with a second spacing:
+        # must be the IDENTICAL rationals (impl_posterior_eq_model, ckpt_transparent)
+        ireqs, iback = [], []
+        for n, (case, impl, brute) in enumerate(self.items):
+            if G.impl_cost(case) <= IMPL_BUDGET_RAT and len(ireqs) < 16:
+                base = dict(reqs[n], op="c08.implrat"); base.pop("brute", None)
+                ireqs.append(base); iback.append((n, None))
+                k2 = 1 + (n * 5 + case["n_cols"]) % max(1, case["n_cols"])
+                ireqs.append(dict(base, k=k2)); iback.append((n, k2))
+        answers = ctx.model.ask_many(reqs + ireqs) if reqs else []
+        ianswers = answers[len(reqs):]; answers = answers[:len(reqs)]
+        for (n, k2), ians in zip(iback, ianswers):
+            case = self.items[n][0]
+            if not isinstance(ians, dict) or "lik" not in ians:
+                ctx.disagree("c08.implrat", case, "likelihoods", ians); continue
+            if ians.get("zero_scaling") or (isinstance(answers[n], dict) and answers[n].get("zero_total")):
+                continue
+            ctx.extra["exact_impl_model_checked"] = ctx.extra.get("exact_impl_model_checked", 0) + 1
+            if not isinstance(answers[n], dict) or ians["lik"] != answers[n].get("lik"):
+                ctx.disagree("c08.implrat/impl-structured-vs-forward-backward" + ("" if k2 is None else "/k=%d" % k2), case,
+                             "identical rationals", "different")
         for (case, impl, brute), ans in zip(self.items, answers):
             if not isinstance(ans, dict) or "lik" not in ans:
                 ctx.disagree("c08.fbrat", case, "likelihoods", ans); continue
@@ -706,6 +999,8 @@ def replay_case(ctx, batch, case):
             ctx.fail(f"determine_genotype({case['gl']}, {case['thr']}) = {i}, rule gives {e}", case, key="gt-rule")
     elif case.get("kind") == "writer":
         writer_cases(ctx, 400)
+    elif case.get("kind") == "glue":
+        glue_case(ctx, case, tag="glue-replay")
     elif case.get("kind") == "cli":
         ctx.observe("cli replay cases are regenerated from the seed, not replayed")
     else:
@@ -793,6 +1088,9 @@ def run(ctx):
 
     import time
     ctx.extra["library_part_s"] = round(time.time() - ctx.t0, 1)
+    for k in range((24 if ctx.quick else 200) * ctx.scale):
+        glue_case(ctx, gen_glue_spec(rng, k), tag=f"glue{k}")
+    ctx.extra["glue_part_s"] = round(time.time() - ctx.t0 - ctx.extra["library_part_s"], 1)
     n_cli = (8 if ctx.quick else 30) * ctx.scale
     for k in range(n_cli):
         cli_case(ctx, rng, k, big=(not ctx.quick and k % 4 == 0))
